@@ -53,6 +53,9 @@ def gen(rng, tier, index):
     b = par['b']
     n = rng.randrange(2 * b + 4, 25)
     stages = [{'op': 'map', 'id': 'u0'}]
+    if rng.random() < 0.15:
+        # an input without a defined order (`ordered` is False): the bound is the same
+        stages.insert(0, {'op': 'reshuffle', 'seed': rng.randrange(1000)})
     if rng.random() < 0.3:
         stages.append({'op': 'map', 'id': 'u1'})
     stages.append(par)
